@@ -95,17 +95,31 @@ def run(prog, tier):
         writes = field_writes(prog, 'ezc3d::c3d', fl['name'])
         if not writes:
             res.viol('per-object', fl['name'], 'include/ezc3d.h:%d' % fl['line'], 'handle is never assigned', function='', expr=fl['name'])
+        from paths import Renderer
         for f, nid, rhs in writes:
             fresh = rhs is not None and contains_new(f, rhs)
             in_ctor = f.cls == 'ezc3d::c3d' and f.kind == 'ctor'
-            if fresh and in_ctor:
+            own_member = f.cls == 'ezc3d::c3d'
+            if fresh and own_member:
                 res.ok('per-object', '%s <- fresh allocation' % fl['name'], f.loc(nid), function=f.sig, expr=fl['name'])
-            else:
+                continue
+            # positive evidence of sharing: the handle is taken from a parameter / another object / a static
+            rr = Renderer(f).render(rhs) if rhs is not None else ''
+            if rhs is not None and (re.search(r'\barg\d+\b', rr) or 'static:' in rr or re.search(r'\._\w+\b', rr.replace('this.', ''))) and not fresh:
                 res.viol('per-object', fl['name'], f.loc(nid),
-                         'member %s of c3d is assigned from something that is not a fresh allocation in a constructor: '
-                         'two objects may share it' % fl['name'], function=f.sig, expr=fl['name'])
+                         'member %s of c3d is assigned from something that is not a fresh allocation (%s): '
+                         'two objects may share it' % (fl['name'], rr[:80]), function=f.sig, expr=fl['name'], sure=True)
+            elif not own_member:
+                res.viol('per-object', fl['name'], f.loc(nid),
+                         'member %s of c3d is assigned outside the class (%s): two objects may share it' % (fl['name'], rr[:80]), function=f.sig, expr=fl['name'])
+            else:
+                res.undecided('per-object', fl['name'], f.loc(nid), 'member %s of c3d is assigned from %s, which the rule cannot classify as fresh or shared [shape not read by the rule]' % (fl['name'], rr[:80] or 'nothing'),
+                              function=f.sig, expr=fl['name'])
+        # every constructor assigns it, itself or through members of the class it calls
+        writers = {f.usr for f, _, _ in writes}
         for c in ctors:
-            if not any(f is c for f, _, _ in writes):
+            reach = prog.reachable_from([c])
+            if not (writers & (set(reach) | {c.usr})):
                 res.viol('per-object', fl['name'], c.loc(), 'constructor leaves %s unassigned' % fl['name'], function=c.sig, expr=fl['name'] + ':unassigned')
     # c3d not copyable: base std::fstream has a deleted copy constructor; implicit copy of c3d is
     # therefore deleted unless someone declares one
